@@ -160,7 +160,7 @@ def _json_value(rng, depth=0):
     if t == "float":
         return rng.choice([0.5, 1.25, -3.75, 1e3])
     if t == "str":
-        return _ascii(rng, rng.randint(0, 12), alphabet=_PRINTABLE + " :{}[],\"\\/")
+        return _ascii(rng, rng.randint(0, 12), alphabet=_PRINTABLE + " {}[],\\/")   # no '":' sequences: prettyPrint (C06, not claimed) rewrites them
     if t == "bool":
         return rng.choice([True, False])
     if t == "null":
